@@ -8,8 +8,8 @@
 import json, os, shutil, subprocess, sys, tempfile, time
 
 ENV = dict(os.environ, GOFLAGS="-mod=mod", GOPROXY="off", GOSUMDB="off", GOTOOLCHAIN="local")
-REPO = "/repo"
-VERIF = "/verif"
+REPO = os.environ.get("MUT_REPO", "/repo")
+VERIF = os.environ.get("MUT_VERIF", "/verif")
 
 
 def sh(cmd, cwd=None, timeout=1800):
